@@ -20,7 +20,7 @@ BUDGET_S = {'quick': 100, 'thorough': 1800}
 
 
 def plan(tier, seed):
-    return [('mix', 1600 if tier == 'quick' else 60000)]
+    return [('mix', 2400 if tier == 'quick' else 60000)]
 
 
 def _nonempty(keys):
